@@ -115,7 +115,7 @@ func judge(cs Case, rep Reply) ev.Outcome {
 	col := ev.Get(prop)
 	if rep.Skip != "" {
 		reason := rep.Skip
-		col.Note("skipped session (%s): %s", short(reason, 300), short(sessionKey(cs.S), 700))
+		col.Note("skipped session (%s): %s", short(reason, 300), short(sessionKey(cs.S), 4000))
 		if i := strings.Index(reason, ":"); i > 0 {
 			reason = reason[:i]
 		}
@@ -181,7 +181,8 @@ func judge(cs Case, rep Reply) ev.Outcome {
 		classes = append(classes, "evaluator-wrong-output(not-C16)")
 	}
 	out := ev.OK(nontrivial, classes...)
-	out.Key = fmt.Sprintf("%s|%d|%d|%s", circuitHash(cs.S), cs.C.Dir, cs.C.Off, cs.C.Mask)
+	out.Key = fmt.Sprintf("%s|%s|%s|%s|%d|%d|%d|%s", circuitHash(cs.S), cs.S.X, cs.S.Y, cs.S.OT, cs.S.Seed,
+		cs.C.Dir, cs.C.Off, cs.C.Mask)
 	out.Sample = describe(cs, rep)
 	return out
 }
@@ -191,7 +192,12 @@ func run(cs Case) ev.Outcome {
 		return ev.Outcome{Skip: "malformed corruption"}
 	}
 	p := getPool()
-	rep, err := p.do(Request{S: cs.S, C: &cs.C})
+	req := Request{S: cs.S, C: &cs.C}
+	if os.Getenv("VERIF_C16_HONEST_ONLY") == "1" {
+		// Debugging aid: only check that the session's honest run is usable.
+		req.C = nil
+	}
+	rep, err := p.do(req)
 	if err != nil {
 		if d, ok := err.(errWorkerDied); ok {
 			ev.Get(prop).Count("worker-deaths", 1)
@@ -202,6 +208,9 @@ func run(cs Case) ev.Outcome {
 	if os.Getenv("VERIF_C16_DEBUG") != "" {
 		fmt.Fprintf(os.Stderr, "DBG case %s %s ot=%s %s/%s mask=%s: %d ms stalled=%v gok=%v recycle=%v gerr=%q eerr=%q\n", cs.S.Mode, sourceOf(cs.S), cs.S.OT,
 			dirName[cs.C.Dir], rep.Kind, cs.C.Mask, rep.ElapsedMs, rep.Stalled, rep.GOK, rep.Recycle, rep.GErr, rep.EErr)
+	}
+	if req.C == nil && rep.Skip == "" {
+		return ev.Outcome{Skip: "honest-only mode"}
 	}
 	return judge(cs, rep)
 }
@@ -368,6 +377,7 @@ func genCase(t *rapid.T) Case {
 }
 
 func init() {
+	unexplained = func(msg string) { ev.Get(prop).Note("%s", msg) }
 	ev.Register("sample", run)
 	ev.Register("enumerate", run)
 }
